@@ -238,4 +238,39 @@ theorem approxPow2Int_eq (bits : ℕ) (n : ℤ) :
       rw [approxPow2Post_pow bits k (by omega)]
       simp only [Nat.cast_lt]
 
+/-- the round-to-nearest right shift of `approx_pow2`: `(b >> s) + ((b >> (s-1)) & 1) = ⌊(b + 2^(s-1)) / 2^s⌋`
+    (round half up), for `s ≥ 1`. -/
+theorem round_shift (b s : ℕ) (hs : 1 ≤ s) :
+    b / 2 ^ s + (b / 2 ^ (s - 1)) % 2 = (b + 2 ^ (s - 1)) / 2 ^ s := by
+  obtain ⟨t, rfl⟩ : ∃ t, s = t + 1 := ⟨s - 1, by omega⟩
+  simp only [Nat.add_sub_cancel]
+  have hp : 2 ^ (t + 1) = 2 ^ t * 2 := pow_succ 2 t
+  have hpos : 0 < 2 ^ t := by positivity
+  obtain ⟨q, hq⟩ : ∃ q, q = b / 2 ^ t := ⟨_, rfl⟩
+  have h1 : b / 2 ^ (t + 1) = q / 2 := by rw [hp, hq, Nat.div_div_eq_div_mul]
+  have h2 : (b + 2 ^ t) / 2 ^ (t + 1) = (q + 1) / 2 := by
+    rw [hp, ← Nat.div_div_eq_div_mul, Nat.add_div_right b hpos, ← hq]
+  rw [h1, h2, ← hq]
+  omega
+
+/-- `approxPow2Post` is: exact `mant·2^(shift−63)` for `shift ≥ 63`, round-half-up of `mant / 2^(63−shift)`
+    below, `None` iff the value does not fit. -/
+theorem approxPow2Post_eq (bits mant shift : ℕ) :
+    approxPow2Post bits mant shift =
+      (let v := if shift ≥ 63 then mant * 2 ^ (shift - 63)
+                else (mant + 2 ^ (63 - shift - 1)) / 2 ^ (63 - shift)
+       if v < 2 ^ bits then some v else none) := by
+  unfold approxPow2Post
+  by_cases h : shift ≥ 63
+  · simp only [h, if_true]
+    by_cases hm : mant < 2 ^ bits
+    · rw [if_pos hm]
+    · rw [if_neg hm]
+      have : ¬ (mant * 2 ^ (shift - 63) < 2 ^ bits) := by
+        have : mant ≤ mant * 2 ^ (shift - 63) := Nat.le_mul_of_pos_right _ (by positivity)
+        omega
+      simp [this]
+  · simp only [h, if_false]
+    rw [round_shift mant (63 - shift) (by omega)]
+
 end Ruint.Pow
